@@ -49,7 +49,11 @@ def tasks(tier):
                                            [["call", "execute"], ["call0", "execute0", "abort0"],
                                             ["call", "execute0", "abort0"]]):
         cfg = {"threshold": thr, "window": 4, "recovery": R, "class_thresholds": {}, "trip_on": ["T"]}
-        out.append({"family": "async-interleave", "cfg": cfg, "entry": "AsyncPolicy", "bound": d_as,
+        if "call" not in kinds:
+            d_as_k = d_as + 2   # retry-less calls finish in one step: deeper histories are cheap
+        else:
+            d_as_k = d_as
+        out.append({"family": "async-interleave", "cfg": cfg, "entry": "AsyncPolicy", "bound": d_as_k,
                     "max_out": 2 if tier == "quick" else 3, "kinds": kinds, "weight": 8})
     for t in c06.tasks(tier):
         if t["family"] == "policy-seq":
